@@ -143,3 +143,65 @@ where
         run.merge(&config, "values + rounding patterns", op, xs.len() as u64, l);
     }
 }
+
+/// AsPrimitive for the remaining source / target kinds: bool, char, f32, f64 into bnum, bnum into
+/// f32 / f64, and bnum into bnum (different digit types and widths) — each against the As cast.
+pub fn as_primitive_extras<T, W1, W2>(run: &mut Run)
+where
+    T: Subj + As + CastFrom<bool> + CastFrom<char> + CastFrom<f32> + CastFrom<f64>,
+    bool: AsPrimitive<T>,
+    char: AsPrimitive<T>,
+    f32: AsPrimitive<T> + CastFrom<T>,
+    f64: AsPrimitive<T> + CastFrom<T>,
+    T: AsPrimitive<f32> + AsPrimitive<f64> + AsPrimitive<W1> + AsPrimitive<W2>,
+    W1: Subj + CastFrom<T>,
+    W2: Subj + CastFrom<T>,
+{
+    let config = format!("AsPrimitive extras {}", T::type_name());
+    let op = "AsPrimitive::as_ (extras)";
+    if run.in_replay() {
+        // these transitions are deterministic functions of tiny domains; a recorded violation is
+        // replayed by re-running the whole (sub-second) family
+        if run.replay_target(&config, op).is_none() {
+            return;
+        }
+    } else if !run.wants_prefix(&config) {
+        return;
+    }
+    let mut l = Local::default();
+    let mut chk = |what: String, want: Obs<Z>, got: Obs<Z>| {
+        l.check(&config, op, || vec![what.clone()], 0, &Expect::Is(want), &got);
+    };
+    for b in [false, true] {
+        chk(format!("bool {}", b), Obs::V(T::cast_from(b).z::<Z>()), Obs::V(AsPrimitive::<T>::as_(b).z::<Z>()));
+    }
+    for c in vcore::casts::chars(refmodel::Tier::Quick) {
+        chk(format!("char {}", c as u32), Obs::V(T::cast_from(c).z::<Z>()), Obs::V(AsPrimitive::<T>::as_(c).z::<Z>()));
+    }
+    for b in floatspec::structured_patterns(F32, false).into_iter().step_by(3) {
+        let f = f32::from_bits(b as u32);
+        chk(format!("f32 {:#x}", b), Obs::V(T::cast_from(f).z::<Z>()), Obs::V(AsPrimitive::<T>::as_(f).z::<Z>()));
+    }
+    for b in floatspec::structured_patterns(F64, false).into_iter().step_by(11) {
+        let f = f64::from_bits(b);
+        chk(format!("f64 {:#x}", b), Obs::V(T::cast_from(f).z::<Z>()), Obs::V(AsPrimitive::<T>::as_(f).z::<Z>()));
+    }
+    let vals = if T::BITS <= 16 { refmodel::sets::full(T::BITS) } else { refmodel::sets::structured(T::DIGIT_BITS, T::N, refmodel::Tier::Quick) };
+    for bytes in vals.iter() {
+        let x = T::from_le(bytes);
+        let h = vengine::hex(bytes);
+        chk(format!("{} -> f32", h), Obs::F(<f32 as CastFrom<T>>::cast_from(x).to_bits() as u64), Obs::F(AsPrimitive::<f32>::as_(x).to_bits() as u64));
+        chk(format!("{} -> f64", h), Obs::F(<f64 as CastFrom<T>>::cast_from(x).to_bits()), Obs::F(AsPrimitive::<f64>::as_(x).to_bits()));
+        chk(format!("{} -> {}", h, W1::type_name()), Obs::V(<W1 as CastFrom<T>>::cast_from(x).z::<Z>()), Obs::V(AsPrimitive::<W1>::as_(x).z::<Z>()));
+        chk(format!("{} -> {}", h, W2::type_name()), Obs::V(<W2 as CastFrom<T>>::cast_from(x).z::<Z>()), Obs::V(AsPrimitive::<W2>::as_(x).z::<Z>()));
+    }
+    if run.in_replay() {
+        match l.viols.first() {
+            Some(v) => println!("  expected: {}\n  observed: {}\nREPRODUCED", v.expected, v.observed),
+            None => println!("NOT-REPRODUCED"),
+        }
+        return;
+    }
+    let n = l.transitions;
+    run.merge(&config, "bool, char, float patterns, values", op, n, l);
+}
